@@ -70,6 +70,17 @@ def float_case(ck, rng, crys, chem, sl, jn, d, with_gf):
     err = np.abs(D - Dex).max() / scale
     res = {"err": err, "errgf": 0.0, "inp": dict(pre=pre.tolist(), bE=bE.tolist(), preT=preT.tolist(), bET=bET.tolist()),
            "D": D.tolist(), "Dex": Dex.tolist()}
+    # moderate rate spreads: each jump class in turn made e^3 .. e^7 times faster than drawn (a fast class may cancel in the
+    # projection onto the site vector basis; its roundoff must not leak into the pseudo-inverse: fixed defect 5bd02a7)
+    for t in range(len(jn)):
+        bET2 = bET.copy(); bET2[t] -= nr.uniform(3, 7)
+        D2 = d.diffusivity(pre, bE, preT, bET2)
+        r2 = [[pT * np.exp(-bT) / w[i] for (i, j), dx in jl] for jl, pT, bT in zip(jn, preT, bET2)]
+        Dex2 = gen.exact_unitcell_D(d.N, jn, rho2, r2, crys.dim)
+        e2 = np.abs(D2 - Dex2).max() / max(np.abs(Dex2).max(), 1e-300)
+        if e2 > res["err"]:
+            res["err"] = e2; res["inp"] = dict(pre=pre.tolist(), bE=bE.tolist(), preT=preT.tolist(), bET=bET2.tolist(), fast_class=t)
+            res["D"] = D2.tolist(); res["Dex"] = Dex2.tolist()
     if with_gf:
         g = GFcalc.GFCrystalcalc(crys, chem, sl, jn, Nmax=2)
         try:
